@@ -28,7 +28,7 @@ M = [
  ("M09", "C04", "microscpi/src/response.rs", "        f.write_char(',').await?;\n        self.3.write_response(f).await", "        self.3.write_response(f).await", "4-tuples lose the comma before the last element"),
  ("M10", "C04", "microscpi/src/response.rs", "f.write_str(\"9.91E+37\").await\n        }\n        else if self.is_infinite() {\n            if self.is_sign_negative() {\n                f.write_str(\"-9.9E+37\").await", "f.write_str(\"9.91E+37\").await\n        }\n        else if self.is_infinite() {\n            if self.is_sign_negative() {\n                f.write_str(\"-9.91E+37\").await", "first -infinity sentinel (f32) spelled -9.91E+37"),
  ("M11", "C04", "microscpi/src/interface.rs", "                result = match response.write_char('\\n').await {\n                    Ok(()) => response.flush().await,", "                result = match response.flush().await {\n                    Ok(()) => response.write_char('\\n').await,", "flush before the newline"),
- ("M12", "C05", "microscpi/src/parser.rs", "    // Skip optional whitespace\n    let (input, _) = optional(whitespace)(input)?;\n    let (input, _terminator) = optional(tag(b'\\n'))(input)?;\n\n    if _terminator.is_some() {\n        return Ok((input, None));\n    }", "    let original = input;\n    let (input, _) = optional(whitespace)(input)?;\n    let (input, _terminator) = optional(tag(b'\\n'))(input)?;\n\n    if _terminator.is_some() {\n        return Ok((if original.starts_with(b\"\\r\\n\") { original } else { input }, None));\n    }", "an empty message written as CR LF is accepted without being consumed (run loops forever)"),
+ ("M12", "C05", "microscpi/src/parser.rs", "    // Skip optional whitespace\n    let (input, _) = optional(whitespace)(input)?;\n", "    let original = input;\n    let (input, _) = optional(whitespace)(input)?;\n    if original.starts_with(b\"\\r\\n\") && original.len() > 2 {\n        return Ok((original, None));\n    }\n", "an empty message written as CR LF is accepted without being consumed (run loops forever)"),
  ("M13", "C05", "microscpi/src/interface.rs", "if read_offset >= cmd_buf.len() {", "if read_offset > cmd_buf.len() {", "overflow test off by one: read into an empty buffer forever"),
  ("M14", "C06", "microscpi/src/interface.rs", "                    self.handle_error(error);\n                }", "                    self.handle_error(error);\n                    if call.query {\n                        self.handle_error(error);\n                    }\n                }", "execution errors of queries are reported twice"),
  ("M15", "C06", "microscpi/src/interface.rs", "                    Some(remaining) => {\n                        input = remaining;", "                    Some(remaining) => {\n                        input = remaining.get(1..).unwrap_or(remaining);", "resync after a parse error also swallows the first byte of the next message"),
